@@ -28,6 +28,8 @@ TECHNIQUE = ("static analysis: abstract interpretation of the readers' byte-offs
              "layout specification; protocol skeleton extraction; dimension-domain evaluation of the unit library; finite-case "
              "folding of the leaf rule, child offsets and vector assembly")
 
+from . import loader_folds as lfold
+
 
 def r1(run, tree):
     run.rule("C01.R1", "record locator", "D1 (derived by interpreting read_binary_data)", "S1 record framing", floor=12)
@@ -46,10 +48,9 @@ def r3(run, tree):
 
 
 def r4(run, tree):
-    run.rule("C01.R4", "traversal skeleton of Loader.load", "protocol extraction", "", floor=12)
-    io.check_skeleton(run, tree)
-    from .loader_rules import check_lmax_reset
-    check_lmax_reset(run, tree)
+    run.rule("C01.R4", "traversal protocol of Loader.load: every reader sees header, level, domain, block and footer records in file order; "
+             "offsets zeroed per file; file names; one conjunction mask per block", "D7 fold of Loader.load over recording readers on 9 scenarios + a two-load history, compared with the traversal specification", "S1 traversal", floor=10)
+    lfold.check_load(run, tree)
 
 
 def r5(run, tree):
@@ -58,8 +59,8 @@ def r5(run, tree):
 
 
 def r6(run, tree):
-    run.rule("C01.R6", "one conjunction mask for every variable", "path rule", "", floor=4)
-    io2.check_one_mask(run, tree)
+    run.rule("C01.R6", "one conjunction mask for every variable (Loader.load fold: pieces and selection)", "D7 fold of Loader.load over recording readers on 9 scenarios + a two-load history, compared with the traversal specification", "", floor=10)
+    lfold.check_load(run, tree)
 
 
 def r7(run, tree):
